@@ -964,6 +964,11 @@ def parse_tree_to_objgraph(
                 parser, model, pos_crossref_list
             )
             model._tx_parser = parser
+        else:
+            # The model can't carry its parser to the end of the model
+            # construction. Restore user classes here.
+            parser._restore_user_attr_methods()
+            parser._release_user_obj_attrs()
 
         if is_main_model:
             models = get_included_models(model)
